@@ -7,9 +7,10 @@ PROP = {'level': 'proof',
           'over the values a..b / a..=b; the same for char (scalar values, ranges crossing the surrogate '
           'gap); RangeFromIter yields a, a+1, ... while below MAX, then (debug assertions on, like std with '
           'overflow checks) panics on the step that would have to go beyond MAX, and never ends - for any '
-          'number of steps and through take/zip/nth/find loops (take(k) with k = MAX - a excepted: the '
-          'emitted loop pulls k+1 items); the macro loop (next until None) collects '
-          'exactly these values (28 theorems, by one-step facts + the generic deque refinement, induction '
+          'number of steps and through take/zip/nth/find loops (take(k) tests its countdown before the source '
+          'is pulled, so it pulls exactly k items and equals std for every k, k = MAX - a included; zip pulls '
+          'k+1 like std); the macro loop (next until None) collects '
+          'exactly these values (30 theorems, by one-step facts + the generic deque refinement, induction '
           'over the history). The model is tied to the code by a differential run that is complete for all '
           '65 536 bound pairs of u8 and of i8.',
  'sources': [('harness', 'c09'), ('programs', 'c09_cc')],
@@ -35,9 +36,9 @@ PROP = {'level': 'proof',
                 'through the iteration macros) and the spec to the real core::ops::{Range, RangeInclusive, '
                 "RangeFrom}. RangeFrom driven to the type's MAX is compared step by step with std's "
                 'RangeFrom under catch_unwind in the same program (same build profile: values below MAX, then a '
-                'panic; `end` where std yields a value or panics is a violation); out of scope only: take(k) with '
-                'k = MAX - a (konst pulls a (k+1)-th item and panics where std stops) and the older '
-                'rg.rangefrom[.fe|.ev] prefix requests beyond MAX.',
+                'panic; `end` where std yields a value or panics is a violation), take(k) with k = MAX - a '
+                'included (konst, like std, stops without pulling a (k+1)-th item); out of scope only: the older '
+                'rg.rangefrom[.fe|.ev] prefix requests that ask for items beyond MAX-1 (std itself overflows).',
  'assumptions': ['usize/isize are 64 bits wide',
                  'konst is built with debug assertions (debug_assert!(!overflowed) active), as in const '
                  'evaluation of a debug build; a.. at MAX: the oracle is what std does in the same profile (overflow '
